@@ -163,3 +163,107 @@ Theorem C20_TypeToKind_from_source :
   Gen_protokind.Type_TypeToKind 19 = None.
 Proof. exact GenProtokindProofs.Type_TypeToKind_spec. Qed.
 Print Assumptions C20_TypeToKind_from_source.
+
+(* ================================================================== second sentence of the property: descriptor-driven writer / reader *)
+(* algorithm level: model/ProtoAny.v transcribes WriteAnyWithDesc / ReadAnyWithDesc and callees AS CODED over byte lists
+   (tied to the code by checks 2009 / 2010: byte-for-byte equality on generated schemas and values); the theorems refine
+   it to the typed codec of ProtoMsg.v, whose round trip is re-exported first. *)
+From DG Require Import ProtoMsgProofs ProtoAny ProtoAnyProofs.
+
+Theorem C20_message_roundtrip :
+  forall S name fs, ProtoMsg.wf_msg S name fs = true -> ProtoMsg.decode_top S name (ProtoMsg.encode_msg fs) = Some fs.
+Proof. exact decode_top_encode. Qed.
+Print Assumptions C20_message_roundtrip.
+
+(* (T1) the writer, on the Go value of a well-formed typed message - fields, map entries and the fields of sub-messages
+   delivered by the Go map iteration in ANY order (the order of the lists of fs) - returns nil and leaves exactly
+   encode_msg fs in the buffer, which the proved decoder reads as fs. Every kind, zig-zag, unsigned, fixed, packed and
+   [packed=false] lists, maps of every key kind, nested messages with speculative length prefixes of every size < 2^31. *)
+Theorem C20_write_any_refines_encode :
+  forall S cast disallow byname junk, (9 <= length junk)%nat ->
+  (byname = true -> forall name md n fd, ProtoMsg.find_msg S name = Some md -> ProtoMsg.find_field md n = Some fd ->
+                    ProtoMsg.find_field_name md (ProtoMsg.fd_name fd) = Some fd) ->
+  forall name fs fuel,
+  ProtoMsg.wf_msg S name fs = true -> strs_ok (ProtoMsg.VMsg fs) = true -> sizes_ok (ProtoMsg.VMsg fs) = true ->
+  (ProtoMsg.depth (ProtoMsg.VMsg fs) < fuel)%nat ->
+  write_any_desc S cast disallow byname junk true fuel 0 ProtoMsg.LSingular (ProtoMsg.TMsg name) false
+                 (gtop S byname false name fs) = (ProtoMsg.encode_msg fs, 0) /\
+  ProtoMsg.decode_top S name (ProtoMsg.encode_msg fs) = Some fs.
+Proof. exact write_any_refines_encode. Qed.
+Print Assumptions C20_write_any_refines_encode.
+
+(* (T2) the reader, on the canonical (reference) encoding, answers the Go value of the message: Go maps as association
+   lists in WIRE order (fields in the order of fs, map entries in the order of the entries), empty sub-messages as nil,
+   and no byte is left *)
+Theorem C20_read_any_refines_decode :
+  forall S disallow byname,
+  (byname = true -> forall name md n fd, ProtoMsg.find_msg S name = Some md -> ProtoMsg.find_field md n = Some fd ->
+                    ProtoMsg.find_field_name md (ProtoMsg.fd_name fd) = Some fd) ->
+  forall name fs fuel,
+  ProtoMsg.wf_msg S name fs = true -> sizes_ok (ProtoMsg.VMsg fs) = true -> (ProtoMsg.depth (ProtoMsg.VMsg fs) < fuel)%nat ->
+  read_any_desc S disallow byname fuel ProtoMsg.LSingular (ProtoMsg.TMsg name) false (ProtoMsg.encode_msg fs)
+  = Some (gtop S byname true name fs, []).
+Proof. exact read_any_refines_decode. Qed.
+Print Assumptions C20_read_any_refines_decode.
+
+(* (T3) the sentence of the property *)
+Theorem C20_read_write_any :
+  forall S cast dis_w dis_r byname junk name fs fuel,
+  (9 <= length junk)%nat -> (byname = true -> names_okb S = true) ->
+  ProtoMsg.wf_msg S name fs = true -> strs_ok (ProtoMsg.VMsg fs) = true -> sizes_ok (ProtoMsg.VMsg fs) = true ->
+  (ProtoMsg.depth (ProtoMsg.VMsg fs) < fuel)%nat ->
+  exists bytes,
+    write_any_desc S cast dis_w byname junk true fuel 0 ProtoMsg.LSingular (ProtoMsg.TMsg name) false
+                   (gtop S byname false name fs) = (bytes, 0) /\
+    read_any_desc S dis_r byname fuel ProtoMsg.LSingular (ProtoMsg.TMsg name) false bytes
+    = Some (gtop S byname true name fs, []) /\
+    ProtoMsg.decode_top S name bytes = Some fs /\
+    (forallb (fun nv => no_empty (snd nv)) fs = true -> gtop S byname true name fs = gtop S byname false name fs).
+Proof. exact read_write_any. Qed.
+Print Assumptions C20_read_write_any.
+
+(* (T4) error side: without cast a Go integer of another dynamic type than the kind asks for is refused, nothing is written *)
+Theorem C20_write_scalar_mismatch :
+  forall k ty z b, In k [3; 4; 5; 6; 7; 13; 14; 15; 16; 17; 18] -> ty <> gotype_of_kind k ->
+  write_scalar false k b (GInt ty z) = (b, 1).
+Proof. exact write_scalar_mismatch. Qed.
+Print Assumptions C20_write_scalar_mismatch.
+
+(* non-vacuity: a schema with a sint64, a packed uint32 list, a map<string, N> with an empty-string key and an empty
+   message value, a [packed = false] int32 list and a string list; N holds a fixed32 *)
+Definition ex_schema : ProtoMsg.schema :=
+  [ ProtoMsg.mk_mdesc [77] [ ProtoMsg.mk_fdesc 1 [97] [97] ProtoMsg.LSingular (ProtoMsg.TScalar 18);
+                             ProtoMsg.mk_fdesc 2 [108] [108] (ProtoMsg.LRepeated true) (ProtoMsg.TScalar 13);
+                             ProtoMsg.mk_fdesc 3 [109] [109] (ProtoMsg.LMap 9) (ProtoMsg.TMsg [78]);
+                             ProtoMsg.mk_fdesc 4 [117] [117] (ProtoMsg.LRepeated false) (ProtoMsg.TScalar 5);
+                             ProtoMsg.mk_fdesc 5 [115] [115] (ProtoMsg.LRepeated false) (ProtoMsg.TScalar 9) ];
+    ProtoMsg.mk_mdesc [78] [ ProtoMsg.mk_fdesc 1 [120] [120] ProtoMsg.LSingular (ProtoMsg.TScalar 7) ] ].
+Definition ex_msg : ProtoMsg.pmsg :=
+  [ (3, ProtoMsg.VMap [ (ProtoMsg.KStr [107], ProtoMsg.VMsg [(1, ProtoMsg.VScalar 7 4294967295)]);
+                        (ProtoMsg.KStr [], ProtoMsg.VMsg []) ]);
+    (1, ProtoMsg.VScalar 18 (-3));
+    (2, ProtoMsg.VList true [ProtoMsg.VScalar 13 1; ProtoMsg.VScalar 13 300]);
+    (4, ProtoMsg.VList false [ProtoMsg.VScalar 5 (-1); ProtoMsg.VScalar 5 7]);
+    (5, ProtoMsg.VList false [ProtoMsg.VBytes 9 [104; 105]]) ].
+
+Example C20_any_example :
+  ProtoMsg.wf_msg ex_schema [77] ex_msg = true /\ strs_ok (ProtoMsg.VMsg ex_msg) = true /\
+  sizes_ok (ProtoMsg.VMsg ex_msg) = true /\ (ProtoMsg.depth (ProtoMsg.VMsg ex_msg) < 3)%nat /\ names_okb ex_schema = true /\
+  gtop ex_schema false false [77] ex_msg =
+    GMsgN [ (3, GMapA [ (GStr [107], GMsgN [(1, GInt GT_I32 (-1))]); (GStr [], GMsgN []) ]);
+            (1, GInt GT_I64 (-3)); (2, GList [GInt GT_U32 1; GInt GT_U32 300]);
+            (4, GList [GInt GT_I32 (-1); GInt GT_I32 7]); (5, GList [GStr [104; 105]]) ] /\
+  write_any_desc ex_schema false false false (repeat 0 9) true 3 0 ProtoMsg.LSingular (ProtoMsg.TMsg [77]) false
+                 (gtop ex_schema false false [77] ex_msg)
+  = ([26; 10; 10; 1; 107; 18; 5; 13; 255; 255; 255; 255; 26; 4; 10; 0; 18; 0; 8; 5; 18; 3; 1; 172; 2;
+      32; 255; 255; 255; 255; 255; 255; 255; 255; 255; 1; 32; 7; 42; 2; 104; 105], 0) /\
+  read_any_desc ex_schema false true 3 ProtoMsg.LSingular (ProtoMsg.TMsg [77]) false (ProtoMsg.encode_msg ex_msg)
+  = Some (GMapS [ ([109], GMapA [ (GStr [107], GMapS [([120], GInt GT_I32 (-1))]); (GStr [], GNil) ]);
+                  ([97], GInt GT_I64 (-3)); ([108], GList [GInt GT_U32 1; GInt GT_U32 300]);
+                  ([117], GList [GInt GT_I32 (-1); GInt GT_I32 7]); ([115], GList [GStr [104; 105]]) ], []).
+Proof. repeat split; vm_compute; try reflexivity; lia. Qed.
+
+Example C20_write_scalar_mismatch_example :
+  In 5 [3; 4; 5; 6; 7; 13; 14; 15; 16; 17; 18] /\ GT_I64 <> gotype_of_kind 5 /\ write_scalar false 5 [8] (GInt GT_I64 1) = ([8], 1) /\
+  write_scalar true 5 [8] (GInt GT_I64 4294967297) = ([8; 1], 0).
+Proof. repeat split; try (cbn; intuition); vm_compute; try reflexivity; discriminate. Qed.
